@@ -139,7 +139,9 @@ StateChecks(t) ==
      <<"C01.no-negative-wallet", \A u \in Users : \A a \in 1 .. 2 : Zero \preceq t.w[u][a]>>,
      <<"C07.pending<=alltime", \A a \in 1 .. 2 : t.fee[a] \preceq t.feeAll[a]>> >>
 
-StepChecks(s, t) ==
+\* gift[a]: what the fee collector was paid in this step for another reason than a fee collection (the proceeds of a swap
+\* addressed to it) - not part of "transferred to the fee collector" in the ledger identity
+StepChecksG(s, t, gift) ==
   << <<"C01.lpvalue",
         (s.ptype = "cp" /\ Zero \prec s.S /\ Zero \prec t.S) =>
           (((R(t, 1) ** R(t, 2)) ** s.S) ** s.S) \succeq (((R(s, 1) ** R(s, 2)) ** t.S) ** t.S)>>,
@@ -147,8 +149,9 @@ StepChecks(s, t) ==
      <<"C07.alltime.monotone",
         \A a \in 1 .. 2 : s.feeAll[a] \preceq t.feeAll[a] /\ s.burned[a] \preceq t.burned[a]>>,
      <<"C07.ledger=charged-sent",
-        \A a \in 1 .. 2 : (t.feeAll[a] -- s.feeAll[a]) -- (t.col[a] -- s.col[a]) = t.fee[a] -- s.fee[a]>>,
+        \A a \in 1 .. 2 : (t.feeAll[a] -- s.feeAll[a]) -- ((t.col[a] -- s.col[a]) -- gift[a]) = t.fee[a] -- s.fee[a]>>,
      <<"C07.burn.leaves.circulation",
         \A a \in 1 .. 2 : s.circ[a] -- t.circ[a] = t.burned[a] -- s.burned[a]>> >>
 
+StepChecks(s, t) == StepChecksG(s, t, <<Zero, Zero>>)
 =============================================================================
